@@ -75,11 +75,11 @@ func schemaBuild09(r *Run, rng *Rng) {
 	}
 	schema := schemaJSON09(kinds, nsd)
 	ns := rng.Pick(c09Namespaces)
-	variant := rng.Pick([]string{"top", "base-after", "base-before", "two-builds", "two-builds"})
+	variant := rng.Pick([]string{"top", "base-after", "base-before", "two-builds", "two-builds", "two-schemas", "two-schemas", "two-schemas"})
 	customRes := custom09(kc, "g1") + "---\n" + custom09(kn, "d1")
 	files := fileSet{}
 	switch variant {
-	case "top", "two-builds":
+	case "top", "two-builds", "two-schemas":
 		files["/t/kustomization.yaml"] = "resources:\n- custom.yaml\n- cm.yaml\nopenapi:\n  path: schema.json\nnamespace: " + ns + "\n"
 		files["/t/schema.json"] = schema
 		files["/t/custom.yaml"] = customRes
@@ -111,6 +111,26 @@ func schemaBuild09(r *Run, rng *Rng) {
 		pre := fileSet{"/p/kustomization.yaml": "resources:\n- custom.yaml\nnamespace: " + rng.Pick(c09Namespaces) + "\n", "/p/custom.yaml": customRes}
 		cls, _, _ := runFiles09(pre, "/p")
 		r.Count("schema_prebuild", cls)
+	}
+	if variant == "two-schemas" {
+		// the same process first builds with ANOTHER custom schema: the same kinds with the scopes swapped, or a schema
+		// that knows only one of them / only other kinds. Its parsed definitions must not survive into the second build.
+		var other string
+		switch rng.Intn(4) {
+		case 0, 1:
+			other = schemaJSON09(kinds, []bool{!nsd[0], !nsd[1]})
+		case 2:
+			other = schemaJSON09([]string{kc, "Other" + suffix}, []bool{!nsd[0], false})
+		default:
+			other = schemaJSON09([]string{kn, "Other" + suffix}, []bool{!nsd[1], true})
+		}
+		pre := fileSet{"/p/kustomization.yaml": "resources:\n- custom.yaml\nopenapi:\n  path: schema.json\n", "/p/custom.yaml": customRes, "/p/schema.json": other}
+		if rng.Chance(60) {
+			pre["/p/kustomization.yaml"] += "namespace: " + rng.Pick(c09Namespaces) + "\n"
+		}
+		cls, _, _ := runFiles09(pre, "/p")
+		r.Count("schema_prebuild", "other-schema:"+cls)
+		files["/pre/kustomization.yaml"], files["/pre/custom.yaml"], files["/pre/schema.json"] = pre["/p/kustomization.yaml"], pre["/p/custom.yaml"], pre["/p/schema.json"] // for the replay record
 	}
 	cls, msg, outs := runFiles09(files, "/t")
 	r.Count("schema_build", variant+":"+cls)
